@@ -320,7 +320,7 @@ Proof.
     split; [reflexivity|]. split; [reflexivity|]. split; [exact RC1|].
     split; [intros ->; exfalso; apply RC2; reflexivity|]. split; [intros _; left; reflexivity | intros; lia].
   - cbn [HcChainSound.RSpec] in RS. cbn [HcChainCap.RCap] in RC. destruct RC as (RC1 & RC2).
-    destruct RS as (R1 & R2 & R3 & R4 & R5 & RT). unfold hc_iend in RT.
+    destruct RS as (R1 & R2 & R3 & R4 & R5 & RT & RB). unfold hc_iend in RT.
     destruct RT as (RT1 & RT2 & RT3).
     replace (ret' <=? 0) with false by lia.
     assert (Hseg : seg (k_vrd m ke) s0 (s0 + consumed') = load_list m src (Z.to_nat consumed')).
